@@ -92,3 +92,68 @@ theorem decodeList_encodeList (ts : List Asn1) (h : WFList ts) (fuel : Nat)
 end
 
 end Rcgen
+
+namespace Rcgen
+
+theorem encLen_length_pos (n : Nat) : 1 ≤ (encLen n).length := by
+  unfold encLen; split <;> simp
+
+mutual
+theorem size_le_encode (t : Asn1) (h : t.WF) : t.size + 1 ≤ 2 * (encode t).length := by
+  match t with
+  | .raw _ => simp [Asn1.WF] at h
+  | .prim cls num c =>
+    have := encLen_length_pos c.length
+    simp only [Asn1.size, encode, List.length_cons, List.length_append]
+    omega
+  | .cons cls num ch =>
+    simp only [Asn1.WF] at h
+    have ih := sizeList_le_encodeList ch h.2.2.2
+    have := encLen_length_pos (encodeList ch).length
+    simp only [Asn1.size, encode, List.length_cons, List.length_append]
+    omega
+theorem sizeList_le_encodeList (ts : List Asn1) (h : WFList ts) :
+    sizeList ts ≤ 2 * (encodeList ts).length + 1 := by
+  match ts with
+  | [] => simp [sizeList, encodeList]
+  | t :: ts =>
+    simp only [WFList] at h
+    have i1 := size_le_encode t h.1
+    have i2 := sizeList_le_encodeList ts h.2
+    simp only [sizeList, encodeList, List.length_append]
+    omega
+end
+
+/-- strict decoding of a whole well-formed encoding returns the tree -/
+theorem decodeAll_encode (t : Asn1) (h : t.WF) : decodeAll (encode t) = some t := by
+  unfold decodeAll
+  have hsz := size_le_encode t h
+  have := decode_encode t h (2 * (encode t).length + 2) (by omega) []
+  simp only [List.append_nil] at this
+  rw [this]
+
+theorem uint8_and_255 (b : UInt8) : UInt8.ofNat (b.toNat &&& 255) = b := by
+  have h : b.toNat &&& 255 = b.toNat % 256 := Nat.and_two_pow_sub_one_eq_mod b.toNat 8
+  rw [h]
+  have : b.toNat % 256 = b.toNat := Nat.mod_eq_of_lt b.toNat_lt
+  rw [this]
+  exact UInt8.ofNat_toNat
+
+/-- `write_bitvec_bytes(sig, 8 * sig.len())`: no unused bits, octets unchanged -/
+theorem bitStringContent_octets (bs : Bytes) : bitStringContent bs (8 * bs.length) = 0 :: bs := by
+  unfold bitStringContent
+  simp only [Nat.sub_self]
+  cases hr : bs.reverse with
+  | nil =>
+    have : bs = [] := by simpa using hr
+    subst this; rfl
+  | cons last initRev =>
+    have hb : bs = initRev.reverse ++ [last] := by
+      have := congrArg List.reverse hr
+      simpa using this
+    simp only
+    have hm : (255 - 255 >>> (8 - 0)) = 255 := by decide
+    rw [hm, uint8_and_255, ← hb]
+    rfl
+
+end Rcgen
